@@ -44,6 +44,8 @@ SCENARIOS = {
     # gaps beyond every fixed-width limit one might clamp to (28-bit VLQ, 32-bit, 63-bit): ticks are unbounded integers
     'huge-gaps': [[ev('n', 2 ** 28 + 5, 1), ev('n', 3, 2), ev('eot', 2 ** 33)], [ev('n', 7, 3), ev('n', 2 ** 40, 4)], [ev('eot', 2 ** 70)]],
     'single-message-tracks': [[ev('tempo', 0, 1)], [ev('n', 4, 2)], [ev('eot', 9)], [ev('n', 1, 3), ev('n', 1, 4)]],
+    # meta events of types the library does not know, and text events (whatever charset their file was loaded with)
+    'unknown-meta-and-text': [[ev('unk', 3, 1), ev('n', 2, 2), ev('txt', 0, 3)], [ev('unk', 4, 4), ev('txt', 1, 5), ev('eot', 2)]],
 }
 
 
@@ -57,8 +59,14 @@ def build(ai, ctx, spec):
                 m = wire.make_message(ctx, 'note_on', {'channel': smf.sym(f'ch{note}', 15), 'note': note, 'velocity': smf.sym(f'v{note}', 127)}, t)
             elif kind == 'tempo':
                 m = wire.make_meta(ai, ctx, 'set_tempo', {'tempo': 1000 + note}, t)
+            elif kind == 'unk':
+                from ..fold import ClassRef
+                m = ai.apply(ClassRef(ctx.p.cls(wire.META_MOD, 'UnknownMetaMessage')), [0x60 + note], {'data': AList([note, smf.sym(f'u{note}', 255)], 'tuple'), 'time': t}, None)
+            elif kind == 'txt':
+                m = wire.make_meta(ai, ctx, 'track_name', {'name': wire.StrSym(f'N{note}')}, t)
             else:
                 m = wire.make_meta(ai, ctx, 'end_of_track', {}, t)
+            m.stores.clear()            # (what the constructor stored is not a modification by merge_tracks)
             msgs.append(m)
             allmsgs.append(m)
         tracks.append(AList(msgs, 'MidiTrack'))
@@ -95,6 +103,12 @@ def ident_of(obj):
         return ('tempo', obj.attrs.get('tempo') - 1000 if isinstance(obj.attrs.get('tempo'), int) else None)
     if t == 'end_of_track':
         return ('eot', None)
+    if t == 'unknown_meta':
+        tb = obj.attrs.get('type_byte')
+        return ('unk', tb - 0x60 if isinstance(tb, int) else None)
+    if t == 'track_name':
+        nm = obj.attrs.get('name')
+        return ('txt', int(nm.name[1:]) if isinstance(nm, wire.StrSym) and nm.name[1:].isdigit() else None)
     return (t, None)
 
 
@@ -143,6 +157,10 @@ def r12_scenarios(ctx):
                     b = {k: v for k, v in src[idn].attrs.items() if k != 'time'}
                     same = same and set(a) == set(b) and all(wire.value_equal(a[k], b[k]) for k in a) and x.cls == src[idn].cls
             ctx.require(same, 'R12.1', f'{inst}.attributes', w, 'a merged message differs from its source in more than the time', construct=cons + '::attributes')
+            codec_calls = [e for e in outs[0].log if e[0] == 'codec']
+            ctx.require(not codec_calls, 'R12.1', f'{inst}.no-codec', w,
+                        f'merging encodes or decodes text ({len(codec_calls)} codec calls): whether tracks can be merged then depends on the process-wide '
+                        'charset, not on the tracks', construct=cons + '::codec-call')
             # inputs untouched
             untouched = all(not m.stores and m.attrs == b for m, b in zip(holder['msgs'], holder['before'])) and \
                 all(t.items == b for t, b in zip(holder['tracks'], holder['tbefore']))
